@@ -25,7 +25,7 @@ MonoRule == /\ Ev.res = "Ok"
 \* of the Ev.calls words, all with the top bits set)
 OneRule == Ev.res = "Ok" /\ Ev.multi <= Ev.allowed
 
-Rule == CASE Ev.op = "q" -> QRule [] Ev.op = "mono" -> MonoRule [] Ev.op = "one" -> OneRule [] OTHER -> FALSE
+Rule == CASE Ev.op = "q" -> QRule [] Ev.op = "mono" -> MonoRule [] Ev.op = "one" -> OneRule [] Ev.op = "sup" -> SupOK(Ev) [] OTHER -> FALSE
 
 TInit == l = 1
 TNext == /\ l <= Len(Rec) /\ l' = l + 1
